@@ -36,9 +36,18 @@ fn dispatch(st: &mut State, cmd: &Sx) -> Sx {
 }
 
 fn main() {
-    if std::env::var("MSI_VERIF_SHOW_PANICS").is_err() {
-        std::panic::set_hook(Box::new(|_| {}));
-    }
+    let show = std::env::var("MSI_VERIF_SHOW_PANICS").is_ok();
+    let default_hook = std::panic::take_hook();
+    std::panic::set_hook(Box::new(move |info| {
+        if let Some(l) = info.location() {
+            if let Ok(mut g) = msi_verif_harness::state::LAST_PANIC.lock() {
+                *g = format!("{}:{}", l.file(), l.line());
+            }
+        }
+        if show {
+            default_hook(info);
+        }
+    }));
     let stdin = std::io::stdin();
     let stdout = std::io::stdout();
     let mut out = std::io::BufWriter::new(stdout.lock());
